@@ -16,6 +16,9 @@ Obligations (families of patterns; exhaustive over assignment patterns of <= 3 p
                  polynomial identity (normalised, ground residual to the solver portfolio); split by whether the
                  chopped query's point is the first point of the query list (the PLONK verifier's `vanishing`
                  query is last in its list, so this is the case "some earlier query is at a rotated point")
+  two-chopped    the same completeness / eval-binding obligations on query lists with TWO chopped commitments, each opened
+                 at its own single point (all 9 point pairs, equal and different; a one-piece commitment at every point
+                 subset; three query orders) - the PLONK verifier only ever issues one chopped query (seeded C14-d)
   duplicate      a repeated (commitment, point) pair yields Err(DuplicatedQuery)
   eval-binding   with every claimed evaluation perturbed by a fresh variable t_i the guard polynomial is
                  sum_i c_i t_i with every c_i a non-zero polynomial (a wrong claim changes the pairing equation)
@@ -58,7 +61,24 @@ def patterns(n_plain, with_chopped=True):
     return out
 
 
-def run_kzg(pats, ncom, d=3, pert=0, vals=None):
+def patterns_two_chopped():
+    """commitments 0 and 1 are both chopped (each opened at its own single point), commitment 2 is in one piece;
+    every pair of points for the chopped ones (equal and different), every non-empty point subset for the plain one,
+    three orders of the queries"""
+    subsets = [s for r in (1, 2, 3) for s in itertools.combinations(range(3), r)]
+    out = []
+    for c0, c1 in itertools.product(range(3), repeat=2):
+        out.append([[0, c0], [1, c1]])
+        out.append([[1, c1], [0, c0]])
+        for sub in subsets:
+            base = [[2, p] for p in sub]
+            out.append([[0, c0], [1, c1]] + base)
+            out.append(base + [[1, c1], [0, c0]])
+            out.append([[0, c0]] + base + [[1, c1]])
+    return out
+
+
+def run_kzg(pats, ncom, d=3, pert=0, vals=None, chop2=None):
     f = tempfile.NamedTemporaryFile("w", suffix=".json", delete=False)
     json.dump(pats, f)
     f.close()
@@ -66,6 +86,8 @@ def run_kzg(pats, ncom, d=3, pert=0, vals=None):
         kw = dict(patterns=f.name, d=d, ncom=ncom, chop=0, pert=pert)
         if vals is not None:
             kw["vals"] = vals
+        if chop2 is not None:
+            kw["chop2"] = chop2
         return symf.sx("kzg", **kw)
     finally:
         os.unlink(f.name)
@@ -112,6 +134,8 @@ def check(run):
              f"3 positions of the chopped query, {d} coefficients per polynomial/piece; symbolic coefficients, s, x1, x2, x4; "
              "concrete generic points and x3")
     run.bounds.append("C14/S: " + bound)
+    run.bounds.append("C14/S two-chopped: 2 chopped commitments (2 pieces each) at every pair of 3 points + 0/1 one-piece commitment at "
+                      "every non-empty point subset, 3 query orders (%d patterns)" % len(patterns_two_chopped()))
     run.assumptions += ["S: group elements are modelled by their discrete logarithms (generic-group view); MSM evaluation = sum scalar*base",
                         "S: the opening proof comes from a specification prover (halo2 book), not from the repository's multi_open"]
     run.outside += ["C14: soundness under q-SDH/AGM; truncated challenges; the repository's multi_open (its commit uses windowed MSM "
@@ -123,6 +147,8 @@ def check(run):
         ("completeness/chopped-point-first", "guard returned and left*s - right == 0 (chopped query's point is the first point of the list)", "kzg-completeness"),
         ("completeness/chopped-point-not-first", "guard returned and left*s - right == 0 (an earlier query is at another point)", "kzg-multi_prepare:chopped-point-index"),
         ("completeness/no-chopped", "guard returned and left*s - right == 0 (one-piece commitments only)", "kzg-completeness"),
+        ("completeness/two-chopped", "guard returned and left*s - right == 0 (two chopped commitments, each at its own point, equal or different)", "kzg-two-chopped"),
+        ("eval-binding/two-chopped", "every claimed evaluation has a non-zero coefficient in the guard polynomial (two chopped commitments)", "kzg-eval-binding"),
         ("duplicate", "a repeated (commitment, point) pair is refused with Err(DuplicatedQuery)", "kzg-duplicate-query"),
         ("eval-binding", "every claimed evaluation has a non-zero coefficient in the guard polynomial", "kzg-eval-binding"),
     ]:
@@ -137,6 +163,9 @@ def check(run):
         ddup = run_kzg(dup_pats, ncom, d)
         pert_pats = pats[::3]      # chopped first (the branch that returns a guard on the pinned tree)
         dpert = run_kzg(pert_pats, ncom, d, pert=1)
+        pats2 = patterns_two_chopped()
+        d2 = run_kzg(pats2, 3, d, chop2=1)
+        d2pert = run_kzg(pats2, 3, d, pert=1, chop2=1)
     except Exception as ex:
         for ob in obs.values():
             ob.set(INCONCLUSIVE, f"sx failed: {str(ex)[-300:]}")
@@ -145,8 +174,8 @@ def check(run):
 
     # completeness, split by the position of the chopped query's point
     for role, flag, dd in [("completeness/chopped-point-first", True, dres), ("completeness/chopped-point-not-first", False, dres),
-                           ("completeness/no-chopped", None, dnc)]:
-        res = [r for r in dd["results"] if r["first_point_is_chopped_point"] == flag]
+                           ("completeness/no-chopped", None, dnc), ("completeness/two-chopped", "two", d2)]:
+        res = [r for r in dd["results"] if flag == "two" or r["first_point_is_chopped_point"] == flag]
         ok = [r for r in res if r["status"] == "ok"]
         bad = [dict(pattern=r["pattern"], status=r["status"], msg=r.get("msg", "")) for r in res if r["status"] != "ok" or not r.get("consumed_all", True)]
         pairs, nonzero, atoms = residual_pairs(dd, ok)
@@ -168,6 +197,11 @@ def check(run):
            f"{len(res) - len(bad)}/{len(res)} duplicated query lists refused")
 
     # evaluation binding
+    for brole, dpert in [("eval-binding", dpert), ("eval-binding/two-chopped", d2pert)]:
+        _binding(run, obs[brole], dpert, n_plain, d, two=brole.endswith("two-chopped"))
+
+
+def _binding(run, ob, dpert, n_plain, d, two=False):
     dag = symf.Dag(dpert["arena"])
     ring = symf.Ring()
     memo = {}
@@ -193,7 +227,7 @@ def check(run):
         for i in range(len(r["pattern"])):
             w = next((c for m, c in nf.items() if any(v == ring.vars.get(f"t{i}") for v, e in m)), 0)
             pairs.append((1 if w % P else 0, 1))
-    decide(run, obs["eval-binding"], pairs, bad, {"kind": "binding", "n_plain": n_plain, "d": d},
+    decide(run, ob, pairs, bad, {"kind": "binding", "n_plain": n_plain, "d": d, "two": two},
            f"{n_q} claimed evaluations over {len(dpert['results'])} patterns")
 
 
@@ -210,7 +244,8 @@ def replay(payload):
             return 0
         # concrete mode: every variable (coefficients, s, challenges) is replaced by a constant and the same real
         # code runs; a pattern reproduces if multi_prepare does not return a guard or left*s - right != 0 in F_p
-        d = run_kzg(pats, payload["n_plain"] + 1, payload["d"], vals={})
+        two = payload.get("flag") == "two"
+        d = run_kzg(pats, 3 if two else payload["n_plain"] + 1, payload["d"], vals={}, chop2=1 if two else None)
         dag = symf.Dag(d["arena"])
         still = [r for r in d["results"] if r["status"] != "ok" or dag.const(r["residual"]) != 0]
         print(f"concrete re-run on the real multi_prepare: {len(still)}/{len(pats)} patterns fail: "
